@@ -11,10 +11,13 @@ combine_subtrees, after every cut_and_optimise, in call order) is compared with 
 step, or leaves a diagram that is not well-indexed (a hyperedge without vertex on the cut edge), the model must
 return None at that step.
 
-Per instance (I): `pipeline_checks` = the decidable preconditions of the universal step theorems
-(C01_cut_step_sound, C01_combine_step_sound) evaluated before every step of the model's run; with
-C01_pipeline_exact_checked this is a kernel-checked proof that the model's final diagram (= the implementation's,
-by the tie) denotes the Hamiltonian.
+Universal layer on top of this tie (coq/theories/SD/PipelineProofs.v, PipelineInv.v, statements in Props/C01.v):
+C01_cut_step_sound (one cut preserves sd_denote for every tree / edge / diagram satisfying cut_pre) and
+C01_bipartite_exact (the whole driver is exact for every tree and every term list with pairwise distinct operator
+strings).  Per instance (I): `pipeline_checks` = the decidable preconditions of the step theorems evaluated before
+every step of the model's run; with C01_pipeline_exact_checked_partial this is a kernel-checked proof that the model's
+final diagram (= the implementation's, by the tie) denotes the Hamiltonian also where a string is repeated with
+different coefficients.
 """
 from __future__ import annotations
 
